@@ -2,6 +2,7 @@ package verifh
 
 import (
 	"fmt"
+	"os"
 
 	otp "github.com/ja7ad/otp"
 	"pgregory.net/rapid"
@@ -50,7 +51,14 @@ func (s suiteSpec) resolve() (suite otp.Suite, cfg ref.OCRACfg, libErr error) {
 func (s suiteSpec) label() string { return "via=" + s.Via }
 
 // registered names (sorted), read once from the library.
+// inChild: this process is a fresh child started by a check to observe first-use behaviour; nothing
+// of the library may be touched before the child's own calls (package initialisers included).
+var inChild = os.Getenv("VERIF_CHILD") != ""
+
 var registeredNames = func() []string {
+	if inChild {
+		return nil
+	}
 	n := otp.ListSuites()
 	sortStrings(n)
 	return n
